@@ -725,10 +725,14 @@ def install_faults(w, scn):
                 continue
 
             if 'kill' in kinds:
-                for d in delays:
-                    def do(p=p, d=d):
-                        world.log.append({'ev': 'kill', 'f': p.name, 'inc': p.incarnation, 't': world.now, 'restart': d})
-                        world.kill(p, drop_inflight=spec.get('drop_inflight', True))
+                # requests on their way to the victim either were still queued at their senders (they reach the restarted filter)
+                # or had been handed over already (they die with it): both are offered when there are any
+                variants = [False, True] if spec.get('lost_requests', True) and world.net.has_inbound_requests(p) else [False]
+
+                for d, lost in [(d, lost) for d in delays for lost in variants]:
+                    def do(p=p, d=d, lost=lost):
+                        world.log.append({'ev': 'kill', 'f': p.name, 'inc': p.incarnation, 't': world.now, 'restart': d, **({'lost_requests': True} if lost else {})})
+                        world.kill(p, drop_inflight=spec.get('drop_inflight', True), drop_inbound=lost)
 
                         if (after := spec.get('after_ms')) is not None:     # run for a fixed time after the fault (and restart)
                             world.horizon_ms = world.now + (d or 0) + after
@@ -738,12 +742,15 @@ def install_faults(w, scn):
                             world.at(d, lambda: (world.log.append({'ev': 'restart', 'f': p.name, 'inc': p.incarnation + 1, 't': world.now}),
                                                  world.start_filter(byname[p.name], p.incarnation + 1)), f'restart {p.name}')
 
-                    acts.append(Action('fault', p, do, label=f'kill:{d}'))
+                    acts.append(Action('fault', p, do, label=f'kill{"-lost" if lost else ""}:{d}'))
 
             if 'graceful' in kinds:      # clean stop (stop event -> shutdown, CLOSE messages, sockets closed) followed by a restart
-                for d in delays:
-                    def do(p=p, d=d):
-                        world.log.append({'ev': 'kill', 'f': p.name, 'inc': p.incarnation, 't': world.now, 'restart': d, 'graceful': True})
+                # requests that reach the stopping filter and are never read either die with its socket (they had been handed over:
+                # the usual case) or were still queued at their senders and reach the restarted filter: both are offered
+                for d, lost in [(d, lost) for d in delays for lost in spec.get('graceful_lost', (False, True))]:
+                    def do(p=p, d=d, lost=lost):
+                        world.log.append({'ev': 'kill', 'f': p.name, 'inc': p.incarnation, 't': world.now, 'restart': d, 'graceful': True, **({'lost_requests': True} if lost else {})})
+                        p.user['close_drops_inbound'] = lost
                         p.user['evt'].set()
 
                         if d is not None:
@@ -761,7 +768,7 @@ def install_faults(w, scn):
                             world.horizon_ms = world.now + (d or 0) + after
                             world.quiet_ms   = None
 
-                    acts.append(Action('fault', p, do, label=f'graceful:{d}'))
+                    acts.append(Action('fault', p, do, label=f'graceful{"-lost" if lost else ""}:{d}'))
 
             if 'stop' in kinds:
                 def do(p=p):
